@@ -336,4 +336,3 @@ func ruleRemoteLookback(p *core.Program) []core.Obligation {
 	}
 	return obs
 }
-
